@@ -93,6 +93,29 @@ func (n *normalizer) normalizeRound(pkgs []*packages.Package) map[string]map[str
 				}
 			}
 		}
+		// tail-recursive new helpers become loops first (tailrec.go); the next round inlines them
+		trDone := false
+		for i, f := range pk.Syntax {
+			tf := n.fset.File(f.Pos())
+			if srcs[i] == nil || tf == nil || tf.Size() != len(srcs[i]) {
+				continue
+			}
+			te, names := tailRecEdits(pk, f, tf, srcs[i])
+			if len(te) == 0 {
+				continue
+			}
+			if res, ok := applyEdits(srcs[i], te); ok {
+				if out[pk.PkgPath] == nil {
+					out[pk.PkgPath] = map[string][]byte{}
+				}
+				out[pk.PkgPath][pk.CompiledGoFiles[i]] = res
+				n.sites = append(n.sites, names...)
+				trDone = true
+			}
+		}
+		if trDone {
+			continue
+		}
 		for i, f := range pk.Syntax {
 			if srcs[i] == nil {
 				continue
@@ -375,17 +398,42 @@ func (f *fileNorm) firstCall(e ast.Expr) (call *ast.CallExpr, blocked bool) {
 				return nil, true
 			}
 		}
-		if c, b := f.firstCall(x.Fun); c != nil || b {
-			return c, b
-		}
-		for _, a := range x.Args {
-			if c, b := f.firstCall(a); c != nil || b {
-				return c, b
+		// nested calls are evaluated first. An inlinable nested call is moved first (this
+		// round); otherwise, if x itself is inlinable, x is moved together with its operands:
+		// receiver and arguments become `var` declarations in the same order, so whatever they
+		// contain (calls of vocabulary functions, conditional evaluation) keeps its place.
+		nested, blocked := f.firstCall(x.Fun)
+		if nested == nil && !blocked {
+			for _, a := range x.Args {
+				if nested, blocked = f.firstCall(a); nested != nil || blocked {
+					break
+				}
 			}
 		}
-		return x, false
+		if nested == nil && !blocked {
+			return x, false
+		}
+		if nested != nil && f.candidate(nested) {
+			return nested, false
+		}
+		if f.candidate(x) {
+			return x, false
+		}
+		return nested, blocked
 	}
 	return nil, true
+}
+
+// candidate reports whether call is a call of a helper the normaliser would try to inline.
+func (f *fileNorm) candidate(call *ast.CallExpr) bool {
+	callee, _ := f.staticCallee(call)
+	if callee == nil || callee.Pkg() != f.pk.Types || callee.Exported() || callee == f.encl {
+		return false
+	}
+	if Vocabulary != nil && Vocabulary(helperID(callee)) {
+		return false
+	}
+	return f.decls[callee] != nil
 }
 
 func (f *fileNorm) lineStart(o int) int {
